@@ -185,7 +185,7 @@ def search(ck, drv, tier, seed):
 
 
 def run(tier, seed):
-    ck = Check("C04", tier, seed, areas=["flow"], gen_groups=["Dist"])
+    ck = Check("C04", tier, seed, areas=["flow"], gen_groups=["Dist", "FlowRows"])
     ck.rule = ("a context-revealing flow (sample = noise + 1000 * context id) for context rows 1/2/4 x draws 1/2/5 x data "
                "dimension 1/2 x with/without embedding net, with the base distribution's noise recorded and replayed through the "
                "extracted pairing model; five library flows: the returned log-probability against log_prob of the returned "
